@@ -8,8 +8,12 @@ fn t3(p: Pt3) -> String { format!("(Pt3 {} {} {})", f(p.x), f(p.y), f(p.z)) }
 fn g2(r: &mut Rng) -> Pt2 { Pt2::new(r.cad(), r.cad()) }
 fn g3(r: &mut Rng) -> Pt3 { Pt3::new(r.cad(), r.cad(), r.cad()) }
 fn edge3(r: &mut Rng) -> (Pt3, Pt3) {
-    let s = g3(r);
-    let d = match r.below(7) { 0 => Pt3::new(0.0, 0.0, 7.5), 1 => Pt3::new(0.0, 0.0, -3.25), 2 => Pt3::new(5.0, 0.0, 0.0), 3 => Pt3::new(0.0, -2.0, 0.0), 4 => Pt3::new(1e-3, 0.0, 2e-3), _ => g3(r) };
+    let mut s = g3(r);
+    let sel = r.below(7);
+    // vertical edges: start heights on both sides of z = 0 and of the edge's own extent, so that the signs of start.z,
+    // end.z and end.z - start.z come in every combination (the look_at branch for vertical directions sees them all)
+    if sel < 2 { s.z = *r.pick(&[-20.0, -5.0, -1.0, 0.0, 1.5, 4.0, 30.0]); }
+    let d = match sel { 0 => Pt3::new(0.0, 0.0, 7.5), 1 => Pt3::new(0.0, 0.0, -3.25), 2 => Pt3::new(5.0, 0.0, 0.0), 3 => Pt3::new(0.0, -2.0, 0.0), 4 => Pt3::new(1e-3, 0.0, 2e-3), _ => g3(r) };
     (s, s + d)
 }
 fn edge2(r: &mut Rng) -> (Pt2, Pt2) {
@@ -59,7 +63,7 @@ pub fn emit(seed: u64, n: usize, max_ops: u64) {
                        terms.push(format!("VPt3s [{}] {}", l.iter().map(|p| t3(*p)).collect::<Vec<_>>().join("; "), c)); }
                 4 => { let k = r.below(3); let l: Vec<(Pt2, Pt2)> = (0..k).map(|_| edge2(&mut r)).collect(); { let l2 = l.clone(); edges_of.push(Some(l.iter().map(|e| (e.0.as_pt3(0.0), e.1.as_pt3(0.0))).collect())); ops.push(Box::new(move |v: &mut Viewer| v.add_lines2d(&l2, col))); }
                        terms.push(format!("VLines2 [{}] {}", l.iter().map(|e| format!("({}, {})", t2(e.0), t2(e.1))).collect::<Vec<_>>().join("; "), c)); }
-                5 => { let k = r.below(3); let l: Vec<(Pt3, Pt3)> = (0..k).map(|_| edge3(&mut r)).collect(); { let l2 = l.clone(); edges_of.push(Some(l.clone())); ops.push(Box::new(move |v: &mut Viewer| v.add_lines3d(&l2, col))); }
+                5 => { let k = r.below(5); let l: Vec<(Pt3, Pt3)> = (0..k).map(|_| edge3(&mut r)).collect(); { let l2 = l.clone(); edges_of.push(Some(l.clone())); ops.push(Box::new(move |v: &mut Viewer| v.add_lines3d(&l2, col))); }
                        terms.push(format!("VLines3 [{}] {}", l.iter().map(|e| format!("({}, {})", t3(e.0), t3(e.1))).collect::<Vec<_>>().join("; "), c)); }
                 6 => { let (s, cc, e, sg) = (g2(&mut r), g2(&mut r), g2(&mut r), 1 + r.below(4)); ops.push(Box::new(move |v: &mut Viewer| v.add_quadratic_bezier2d(&QuadraticBezier2D::new(s, cc, e, sg)))); edges_of.push(None);
                        terms.push(format!("VQuad2 {} {} {} {}%Z", t2(s), t2(cc), t2(e), sg)); }
